@@ -547,6 +547,59 @@ fn run_scenario(rep: &mut Report, env: &mut Env, sc: &Scenario) {
         }
         Err(e) => rep.fail("roundtrip", format!("exported list does not import: {e}"), inp.clone()),
     }
+    // ---- import = union: the chosen lints split over two lists (and a third, overlapping one); each list's
+    // exported JSON is imported into the OTHER, non-empty lists, in both orders and in several rounds.  After
+    // that every lint ignored in either source is hidden and nothing else: the merged lists behave like `ig`.
+    if chosen.len() >= 2 {
+        rep.count("import_union:checked");
+        let mk = |sel: &dyn Fn(usize) -> bool| {
+            let mut x = IgnoredLints::new();
+            for (k, i) in chosen.iter().enumerate() {
+                if sel(k) {
+                    x.ignore_lint(&lints[*i], &doc);
+                }
+            }
+            x
+        };
+        let import = |into: &mut IgnoredLints, from: &IgnoredLints| -> bool {
+            match serde_json::from_str::<IgnoredLints>(&serde_json::to_string(from).unwrap()) {
+                Ok(o) => {
+                    into.append(o);
+                    true
+                }
+                Err(_) => false,
+            }
+        };
+        let half = chosen.len() / 2;
+        let splits: Vec<(&str, Box<dyn Fn(usize) -> bool>, Box<dyn Fn(usize) -> bool>)> = vec![
+            ("first half / second half", Box::new(move |k| k < half), Box::new(move |k| k >= half)),
+            ("even / odd", Box::new(|k| k % 2 == 0), Box::new(|k| k % 2 == 1)),
+            ("all but the last / all but the first", Box::new({ let n = chosen.len(); move |k| k + 1 < n }), Box::new(|k| k > 0)),
+        ];
+        for (name, fa, fb) in &splits {
+            let (a0, b0) = (mk(&**fa), mk(&**fb));
+            // A <- B and B <- A (each starts non-empty), then a second round both ways, then into a copy of `ig`
+            let mut a = mk(&**fa);
+            let mut b = mk(&**fb);
+            let mut ok = import(&mut a, &b0) && import(&mut b, &a0);
+            ok = ok && import(&mut a, &b) && import(&mut b, &a0) && import(&mut b, &b0);
+            if !ok {
+                rep.fail("import_union", format!("an exported ignore list does not import ({name})"), inp.clone());
+                continue;
+            }
+            for (who, m) in [("A after importing B", &a), ("B after importing A", &b)] {
+                let mut k2 = lints2.clone();
+                m.remove_ignored(&mut k2, &doc2);
+                if k2 != kept {
+                    let lost: Vec<String> = k2.iter().filter(|l| !kept.contains(l)).map(|l| format!("{:?}", l.span)).collect();
+                    let extra: Vec<String> = kept.iter().filter(|l| !k2.contains(l)).map(|l| format!("{:?}", l.span)).collect();
+                    rep.fail("import_union", format!("split {name}: {who} does not hide exactly the lints ignored in either list: ignored lints reported again {lost:?}, lints hidden without being ignored {extra:?}"), inp.clone());
+                } else if exported(m) != exported(&ig) {
+                    rep.fail("import_union", format!("split {name}: {who} exports {} hashes, the union has {}", exported(m).len(), exported(&ig).len()), inp.clone());
+                }
+            }
+        }
+    }
     // ---- the user adds words to the dictionary: the text is the same, the metadata of its words is not
     if !sc.dict_add.is_empty() {
         match env.lint_with_words(&sc.text, &sc.lang, &sc.dict_add) {
@@ -830,6 +883,45 @@ fn run_wasm(rep: &mut Report, sc: &Scenario) {
         let after3: Vec<Lint> = w2.lint(sc.text.clone(), lang()).iter().filter_map(wasm_inner).collect();
         if after3 != inner {
             fails.push(("clear", "wasm: after clear_ignored_lints the original lints are not all reported".into(), Value::Null));
+        }
+        // import into a linter that ALREADY ignores something: two linters ignore one half each, each imports the
+        // other's export; both must then report what the linter that ignored everything reports
+        {
+            let mut wa = WL::new(WD::American);
+            let mut wb = WL::new(WD::American);
+            let la = wa.lint(sc.text.clone(), lang());
+            let lb = wb.lint(sc.text.clone(), lang());
+            let (mut na, mut nb) = (0, 0);
+            let side = |l: &harper_wasm::Lint| -> Option<usize> {
+                let li = wasm_inner(l)?;
+                chosen.iter().enumerate().find(|(_, i)| inner[**i] == li).map(|(k, _)| k % 2)
+            };
+            for l in la {
+                if side(&l) == Some(0) {
+                    wa.ignore_lint(sc.text.clone(), l);
+                    na += 1;
+                }
+            }
+            for l in lb {
+                if side(&l) == Some(1) {
+                    wb.ignore_lint(sc.text.clone(), l);
+                    nb += 1;
+                }
+            }
+            if na > 0 && nb > 0 {
+                let (ja, jb) = (wa.export_ignored_lints(), wb.export_ignored_lints());
+                let ra = wa.import_ignored_lints(jb);
+                let rb = wb.import_ignored_lints(ja);
+                if ra.is_err() || rb.is_err() {
+                    fails.push(("import_union", "wasm: an exported list does not import into a linter that already ignores lints".into(), Value::Null));
+                }
+                for (who, wx) in [("A after importing B", &mut wa), ("B after importing A", &mut wb)] {
+                    let got: Vec<Lint> = wx.lint(sc.text.clone(), lang()).iter().filter_map(wasm_inner).collect();
+                    if got != after {
+                        fails.push(("import_union", format!("wasm: {who} reports {} lints, the linter that ignored all of them reports {}", got.len(), after.len()), Value::Null));
+                    }
+                }
+            }
         }
         // "add to dictionary" on the linter that holds the ignore list: an ignored lint that a linter with
         // the same words still produces, on the same text, must stay away
@@ -1208,13 +1300,27 @@ fn case_h(rep: &mut Report, env: &mut Env, r: &mut Rng, docs: &[Document], lints
     rep.eval();
     let lints: Vec<(Lint, usize)> = (0..lints.len().min(8)).map(|_| lints[r.below(lints.len())].clone()).collect();
     let mut ig = IgnoredLints::new();
+    // a second list: `s` makes it the current one, `m` imports its exported JSON into the current one
+    let mut other = IgnoredLints::new();
     let mut ops: Vec<String> = vec![];
     let mut out = String::new();
-    for _ in 0..r.range(4, 14) {
+    for _ in 0..r.range(4, 18) {
         let li = r.below(lints.len());
         // mostly the lint's own document, sometimes the other one
         let di = if r.chance(4, 5) { lints[li].1 } else { r.below(docs.len()) };
-        match r.below(12) {
+        match r.below(16) {
+            12..=13 => {
+                std::mem::swap(&mut ig, &mut other);
+                ops.push("s".into());
+            }
+            14..=15 => {
+                let js = serde_json::to_string(&other).unwrap();
+                match serde_json::from_str::<IgnoredLints>(&js) {
+                    Ok(o) => ig.append(o),
+                    Err(_) => out.push('E'),
+                }
+                ops.push("m".into());
+            }
             0..=3 => {
                 ig.ignore_lint(&lints[li].0, &docs[di]);
                 ops.push(format!("i {li} {di}"));
